@@ -161,8 +161,39 @@ func TestGvcBoundedSerial(t *testing.T) {
 			}
 		})
 	}
+	// crafted ciphertexts whose C1 coordinates have leading zero bytes (the ASN.1 form stores them as minimal
+	// integers; the raw form must get its fixed-width fields back)
+	for _, zeros := range [][2]int{{1, 0}, {0, 1}, {2, 3}, {0, 0}, {31, 0}, {0, 32}} {
+		ct := make([]byte, 97+1+rng.Intn(40))
+		rng.Read(ct)
+		ct[0] = 4
+		for i := 0; i < zeros[0]; i++ {
+			ct[1+i] = 0
+		}
+		if zeros[0] < 32 && ct[1+zeros[0]] == 0 {
+			ct[1+zeros[0]] = 0x5a
+		}
+		for i := 0; i < zeros[1]; i++ {
+			ct[33+i] = 0
+		}
+		if zeros[1] < 32 && ct[33+zeros[1]] == 0 {
+			ct[33+zeros[1]] = 0xa5
+		}
+		id := fmt.Sprintf("ciphertext-asn1-leading-zeros:x=%d;y=%d", zeros[0], zeros[1])
+		guard(id, func() {
+			a, err := sm2.CipherMarshal(ct)
+			if err != nil {
+				fail(id + ":marshal")
+				return
+			}
+			b, err := sm2.CipherUnmarshal(a)
+			if err != nil || !bytes.Equal(b, ct) {
+				fail(id)
+			}
+		})
+	}
 	out, _ := json.Marshal(map[string]interface{}{"cases": cases, "failures": len(failing), "failing": failing,
-		"bound": fmt.Sprintf("%d keys: fixed private keys with leading zero bytes and nibbles, %d random keys, keys whose public coordinates have a leading zero byte; eight serialisations each (PKCS#8 PEM plain and password-protected with a wrong-password probe, PKIX public PEM, private and public hex, compressed point, ASN.1 signature, ASN.1 ciphertext) (seed %d)", len(keys), rounds, seed)})
+		"bound": fmt.Sprintf("%d keys: fixed private keys with leading zero bytes and nibbles, %d random keys, keys whose public coordinates have a leading zero byte; eight serialisations each (PKCS#8 PEM plain and password-protected with a wrong-password probe, PKIX public PEM, private and public hex, compressed point, ASN.1 signature, ASN.1 ciphertext); crafted ciphertexts whose C1 coordinates have 1..32 leading zero bytes through CipherMarshal/CipherUnmarshal (seed %d)", len(keys), rounds, seed)})
 	fmt.Println("GVCBOUNDED " + string(out))
 	if len(failing) > 0 {
 		t.Fail()
